@@ -1,9 +1,67 @@
 import Driver.Loop
+import Midgard.Model.Antex
+import Midgard.Spec.Antex14
 
-/-! Driver for C15: placeholder until the model is written. -/
+/-! Driver for C15: `c15 parse <hex text>` (the parser model) and `c15 render <records>` (the
+ANTEX 1.4 spec renderer). -/
 namespace Driver.C15
+open Midgard.Proto Midgard.Text Midgard.Antex Midgard.ChainParser
+
+def hx (s : Str) : String := encodeHex (asString s)
+
+def rats (l : List Rat) : String := ",".intercalate (l.map showRat)
+
+def showErr : Err → String
+  | .notUnique => "ERR:not-unique"
+  | .other => "ERR:other"
+
+def itemTokens (path : String) (k : Str) : Item → List String
+  | .text s => [s!"{path}|{asString k}=T:{hx s}"]
+  | .date us => [s!"{path}|{asString k}=D:{us}"]
+  | .now => [s!"{path}|{asString k}=D:now"]
+  | .grid deg => [s!"{path}|{asString k}=Qdeg:{rats deg}"]
+  | .freq f =>
+    let p := s!"{path}|f{hx k}"
+    [s!"{p}|neu=Q:{rats f.neu}", s!"{p}|noazi=Q:{rats f.noazi}"] ++
+    match f.azi with
+    | none => []
+    | some rows =>
+      let cols := (rows.head?.map List.length).getD 0
+      [s!"{p}|azi=G:{rows.length}x{cols}:{rats rows.flatten}"]
+
+def showState (s : State) : String :=
+  let m := s.metaText.map fun (k, v) => s!"m|{k}=T:{hx v}"
+  let c := match s.comments with
+    | none => []
+    | some cs => [s!"m|comment=L:{",".intercalate (cs.map hx)}"]
+  let d := s.data.flatMap fun (ant, dict) =>
+    dict.flatMap fun (k, v) =>
+      match k, v with
+      | .date us, .entry e => e.flatMap fun (kk, i) => itemTokens s!"d|{hx ant}|s{us}" kk i
+      | .str kk, .item i => itemTokens s!"d|{hx ant}|r" kk i
+      | .date us, .item _ => [s!"d|{hx ant}|s{us}=BAD:item"]
+      | .str kk, .entry _ => [s!"d|{hx ant}|r|{hx kk}=BAD:entry"]
+  " ".intercalate (m ++ c ++ d)
+
+def parseRecord? (tok : String) : Option (String × List Str) :=
+  match tok.splitOn ":" with
+  | [k, cells] =>
+    if cells = "" then some (k, [])
+    else do
+      let cs ← (cells.splitOn ",").mapM decodeHex?
+      pure (k, cs.map String.toList)
+  | _ => none
 
 def handle : List String → Option String
+  | ["c15", "parse", h] => do
+    let text ← decodeHex? h
+    match parseText text.toList with
+    | .ok s => pure (showState s)
+    | .error e => pure (showErr e)
+  | "c15" :: "render" :: recs => do
+    let rs ← recs.mapM parseRecord?
+    let text ← Midgard.Spec.Antex14.renderFile rs
+    pure (hx text)
   | _ => none
 
 end Driver.C15
